@@ -135,6 +135,8 @@ def make_layout(rng, chain, coin, assign="contiguous", nfiles=3, gaps="none", nu
     index_opts = dict(index_style or {})
     if rng.random() < 0.5:
         index_opts["vary_records"] = rng.getrandbits(32)     # record fields as nodes of different ages write them
+    if rng.random() < 0.35 and len(chain) <= 3000:
+        index_opts["churn"] = rng.getrandbits(32)            # the database has a history: rewritten keys, deleted keys, several sessions
     linked = sorted(rng.sample(sorted(names), max(1, len(names) // 2))) if symlinks else []
     desc = {"assign": assign, "files": len(used), "gaps": gaps, "numbering": numbering, "pad": pad, "sparse": sparse, "extras": extras,
             "index": index_opts, "file_order": file_order, "symlinked_files": len(linked)}
@@ -211,7 +213,11 @@ def layout_chain(rng, coin, nblocks=12, big_every=5, start_height=0):
             cb.add_block(txs=[t])
         else:
             cb.add_block(n_tx=rng.randint(0, 3))
-    return cb.chain()
+    chain = cb.chain()
+    if rng.random() < 0.4:
+        from .gen import add_slack
+        add_slack(rng, chain, coin)       # records longer than their block
+    return chain
 
 
 def classify_seeks(events, names, sizes):
